@@ -480,9 +480,10 @@ def supporting_fact(ctx, name):
         okx = False
         if am:
             from guards import guards_of
-            for g_ in guards_of(am[0]):
-                if g_.kind == 'reject' and any(isinstance(x, tuple) and x[0] == 'call' and x[1].endswith('::is_power_of_two') for x in walk(g_.pred)):
-                    okx = True
+            for h_ in method_family(P, am[0], exclude=('SemanticState::add_item',)):
+                for g_ in guards_of(h_):
+                    if g_.kind == 'reject' and any(isinstance(x, tuple) and x[0] == 'call' and x[1].endswith('::is_power_of_two') for x in walk(g_.pred)):
+                        okx = True
         sb = [f for f in P.fns.values() if f.id.endswith('SemanticState::build')]
         okp = False
         if sb:
